@@ -72,7 +72,7 @@ def run(pid, tier, seed):
         raise ToolError("generated program printed %d results, expected %d" % (len(obs), len(cases) * 4 + 8))
     helper = {1000001: ([{"k": 1, "has": True, "es": [2]}, {"k": 2, "has": False, "es": []}], 1),
               1000004: ([{"k": 1, "has": True, "es": [2]}, {"k": 2, "has": False, "es": []}], 4)}
-    by_content = {(json.dumps(c["inv"], sort_keys=True), c["form"]): c for c in cases}
+    by_content = {(json.dumps(c["inv"], sort_keys=True), c["form"]): c for c in cases if c.get("vm", "pos") == "pos"}
     agree = 0
     mism = {True: [], False: []}
     nontriv = 0
@@ -101,9 +101,9 @@ def run(pid, tier, seed):
             for o, c, kind in lst:
                 ob = o["obs"]
                 if ob["panic"] != 0:
-                    ev = {"inv": c["inv"], "form": c["form"], "rt": "ok" if ob["panic"] > 0 else "fail", "obs": {"panic": max(ob["panic"], 0) or 99}}
+                    ev = {"inv": c["inv"], "form": c["form"], "vm": c.get("vm", "pos"), "rt": "ok" if ob["panic"] > 0 else "fail", "obs": {"panic": max(ob["panic"], 0) or 99}}
                 else:
-                    ev = {"inv": c["inv"], "form": c["form"], "rt": "ok", "obs": {k: ob[k] for k in ("panic", "keys", "vals", "out", "inn")}}
+                    ev = {"inv": c["inv"], "form": c["form"], "vm": c.get("vm", "pos"), "rt": "ok", "obs": {k: ob[k] for k in ("panic", "keys", "vals", "out", "inn")}}
                 f.write(json.dumps(ev) + "\n")
         cfg = vlib.cfg_text(consts(T, directed), init="TInit", next_="TNext", invariants=["Consumed"], postcondition="AllConsumed")
         rr = vlib.run_tlc("MC_Macros", cfg, "%s/adjtlc_%s" % (tag, directed), workers=1, timeout=3000, env={"TRACE": tr}, deque=True, heap="4g")
